@@ -127,3 +127,61 @@ func verif_harness_C20_observe() {
 	}
 	verif_assert(len(calls) <= 4, "C20.nothing-else-touched")
 }
+
+// C20 — two consecutive observations with arbitrary (possibly partly equal)
+// label values: each observation touches exactly the children of ITS OWN label
+// set (catches state carried from one Observe to the next).
+//
+//verif:harness unwind=32 replay=none
+func verif_harness_C20_two_observes() {
+	if !verif_is_symbolic_run() {
+		return
+	}
+	pm := &Metrics{
+		requestLatencyHistogram: &prometheus.HistogramVec{},
+		requestBytesInCounter:   &prometheus.CounterVec{},
+		requestBytesOutCounter:  &prometheus.CounterVec{},
+		requestFailCounter:      &prometheus.CounterVec{},
+	}
+	var calls []*verifCall
+	verif_stub("(*github.com/prometheus/client_golang/prometheus.CounterVec).WithLabelValues",
+		func(v *prometheus.CounterVec, lvs ...string) prometheus.Counter {
+			c := &verifCall{vec: v, labels: append([]string(nil), lvs...)}
+			calls = append(calls, c)
+			return verifCounter{c: c}
+		})
+	verif_stub("(*github.com/prometheus/client_golang/prometheus.HistogramVec).WithLabelValues",
+		func(v *prometheus.HistogramVec, lvs ...string) prometheus.Observer {
+			c := &verifCall{vec: v, labels: append([]string(nil), lvs...)}
+			calls = append(calls, c)
+			return verifObserver{c: c}
+		})
+	rs := make([]*vegeta.Result, 2)
+	for i := range rs {
+		rs[i] = &vegeta.Result{
+			Method:  []string{"GET", "POST"}[verif_choose("method", 2)],
+			URL:     []string{"http://a/", "http://b/"}[verif_choose("url", 2)],
+			Code:    []uint16{200, 0}[verif_choose("code", 2)],
+			BytesIn: verif_nondet_u64("bytes_in"),
+			Latency: time.Duration(verif_nondet_i64("latency")),
+		}
+	}
+	for i, res := range rs {
+		before := map[*verifCall]int{}
+		for _, c := range calls {
+			before[c] = len(c.adds) + len(c.obs) + c.incs
+		}
+		pm.Observe(res)
+		code := strconv.FormatUint(uint64(res.Code), 10)
+		// every child that changed during this Observe carries this result's labels
+		touched := 0
+		for _, c := range calls {
+			if len(c.adds)+len(c.obs)+c.incs != before[c] {
+				touched++
+				verif_assert(len(c.labels) >= 3 && c.labels[0] == res.Method && c.labels[1] == res.URL && c.labels[2] == code, "C20.observation-lands-on-its-own-label-set")
+			}
+		}
+		verif_assert(touched == 3, "C20.three-series-updated-per-result")
+		_ = i
+	}
+}
